@@ -9,7 +9,8 @@ Theorems about the mirrors of `GS.Model.Simplify`.
   `simplify2` suffices (each restarting sweep removes a clause).
 * `simplifyCard_equiv` (proved, any fuel): `simplifyCard` preserves the models, semantics `GS.Lin.holds`.
 * `simplifyPB_equiv_statement`, `parseCardConstrs_equiv_statement`,
-  `parsePBConstrs_equiv_statement`: stated, not proved.
+  `parsePBConstrs_equiv_statement`: stated here, proved in `GS/Props/C02_SimplifyPB.lean`
+  (the first one is false as written — a null literal among the units — and proved with that excluded).
 -/
 namespace GS.Simplify
 open GS GS.Constr
@@ -1450,13 +1451,15 @@ example : MInv [-1, 0, 0] [-1] ∧ (∀ c ∈ [(⟨[1, 2, 3], none, 2⟩ : Cl)],
 example : (parseCardConstrs [⟨[-1], 1⟩, ⟨[1, 2, 3], 2⟩]).map (fun r => (r.status, r.units, r.clauses)) =
     some (.sat, [-1, 3, 2], []) := by decide
 
-/-! ## what is stated but not proved -/
+/-! ## statements proved in `GS/Props/C02_SimplifyPB.lean` -/
 
 /-- a PB constraint as `NewPBClause` builds it, with positive weights -/
 def PbClOk (k : Nat) (c : Cl) : Prop :=
   LitsOk k c ∧ 1 ≤ c.card ∧ ∃ ws, c.weights = some ws ∧ ws.length = c.lits.length ∧ ∀ w ∈ ws, 0 < w
 
-/-- `simplifyPB` preserves the set of models (positive weights). NOT PROVED. -/
+/-- `simplifyPB` preserves the set of models (positive weights). False as written (a null literal
+    among the units, on which the Go code panics): see `simplifyPB_equiv_statement_false` and the
+    corrected `simplifyPB_equiv_partial` in `GS/Props/C02_SimplifyPB.lean`. -/
 def simplifyPB_equiv_statement : Prop :=
   ∀ (pb : Pb), pb.status = .indet → MInv pb.model pb.units →
     (∀ c ∈ pb.clauses, PbClOk pb.model.length c) →
@@ -1464,7 +1467,8 @@ def simplifyPB_equiv_statement : Prop :=
     ((simplifyPB pb).status ≠ .unsat →
       ∀ a, SemL a pb.units pb.clauses ↔ SemL a (simplifyPB pb).units (simplifyPB pb).clauses)
 
-/-- `ParseCardConstrs` end to end (prologue + `simplifyCard`). NOT PROVED as a whole: the
+/-- `ParseCardConstrs` end to end (prologue + `simplifyCard`). Proved as `parseCardConstrs_equiv` in
+    `GS/Props/C02_SimplifyPB.lean`; here: the
     `simplifyCard` half is `simplifyCard_equiv`; the prologue half (`parseCardLines`,
     `bindUnits`) is proved only for `parseSlice` (`parseLines_spec`, `bindUnits_spec`). -/
 def parseCardConstrs_equiv_statement : Prop :=
@@ -1472,7 +1476,8 @@ def parseCardConstrs_equiv_statement : Prop :=
     (r.status = .unsat → ¬ ∃ a, ∀ c ∈ cs, c.sem a = true) ∧
     (r.status ≠ .unsat → ∀ a, (∀ c ∈ cs, c.sem a = true) ↔ SemL a r.units r.clauses)
 
-/-- `ParsePBConstrs` end to end, positive weights. NOT PROVED. -/
+/-- `ParsePBConstrs` end to end, positive weights. Proved as `parsePBConstrs_equiv` in
+    `GS/Props/C02_SimplifyPB.lean`. -/
 def parsePBConstrs_equiv_statement : Prop :=
   ∀ (cs : List PBC) (r : Pb), (∀ c ∈ cs, ∀ t ∈ c.terms, 0 < t.1) → parsePBConstrs cs = some r →
     (r.status = .unsat → ¬ ∃ a, ∀ c ∈ cs, c.sem a = true) ∧
